@@ -289,6 +289,7 @@ def run_verus(path, extra=None, rlimit=None):
 
 VERIF_KINDS = [
     ("postcondition not satisfied", "postcondition"),
+    ("unable to prove post-condition of closure", "postcondition"),
     ("precondition not satisfied", "precondition"),
     ("assertion failed", "assert"),
     ("possible arithmetic underflow/overflow", "overflow"),
@@ -528,6 +529,10 @@ def main():
     ap.add_argument("--units")
     a = ap.parse_args()
     prop = a.prop
+    global EVID
+    if os.path.realpath(a.repo) != "/repo":
+        # a scratch copy (self-tests, seeded changes): never overwrite the evidence of /repo itself
+        EVID = os.path.join(B.CACHE, "evidence-scratch")
     seed = int(os.environ.get("VERIF_SEED", "0") or 0)
     t0 = time.time()
     os.makedirs(EVID, exist_ok=True)
